@@ -2,6 +2,7 @@
 Also hosts the shared end-to-end run used by C06."""
 import collections
 import collections.abc
+import json
 import monkeytype.cli  # noqa: F401  (imported before workers fork)
 import os
 import shutil
@@ -359,13 +360,33 @@ def admit_cause(fail, f, pos, T, rec_active, o, ps=None, src=""):
     return None
 
 
+def _norm_json(d):
+    """Encoded type with Union members sorted (their order reflects set iteration = memory layout)."""
+    if isinstance(d, dict):
+        out = {k: _norm_json(v) for k, v in d.items()}
+        if out.get("qualname") == "Union" and isinstance(out.get("elem_types"), list):
+            out["elem_types"] = sorted(out["elem_types"], key=lambda x: json.dumps(x, sort_keys=True))
+        return out
+    if isinstance(d, list):
+        return [_norm_json(x) for x in d]
+    return d
+
+
 def event_digest(plan, r):
     ev = []
     for s in r.sessions:
         ev.append([s.exc, len(s.journal), len(s.logger.logs) if s.logger else None, bool(s.logger and s.logger.acked)])
-    ev.append(sorted((list(row[1:]) for row in r.rows), key=repr))
+    rows = []
+    for row in r.rows:
+        rows.append([row[1], row[2]] + [json.dumps(_norm_json(json.loads(x)), sort_keys=True) if x else None for x in row[3:]])
+    ev.append(sorted(rows, key=repr))
     for m, (rc, out, err, exc) in sorted(r.stubs.items()):
-        ev.append([m, rc, bool(exc), len(out.splitlines())])
+        names = []
+        try:
+            names = sorted(SE.parse(out).functions) if out.strip() else []
+        except SyntaxError:
+            names = ["<syntax error>"]
+        ev.append([m, rc, bool(exc), names])
     return R.digest(ev)
 
 
